@@ -70,6 +70,7 @@ type c10Event struct {
 	Script *plrt.Script
 	Tree   []*rt.Node
 	HasRef bool
+	ReadKey string // key read back inside the event script
 }
 
 func c10Events() []*c10Event {
@@ -103,11 +104,12 @@ func c10Events() []*c10Event {
 	srcs = append(srcs, `grok(message, "%{WORD:n1}")`, `grok(a, "%{INT:n1:int}")`, `grok(t1, "%{WORD:a} ?%{WORD:t1}?")`)
 	var out []*c10Event
 	for _, s := range srcs {
-		sc, err := drv.Load1("e.p", s)
+		full, rkey := c10Full(s)
+		sc, err := drv.Load1("e.p", full)
 		if err != nil {
 			panic("c10: event does not load: " + s + ": " + err.Error())
 		}
-		tree, err := parseToTree("e.p", s)
+		tree, err := parseToTree("e.p", full)
 		if err != nil {
 			panic(err)
 		}
@@ -116,9 +118,20 @@ func c10Events() []*c10Event {
 		if name == "grok" || name == "default_time" {
 			hasRef = true
 		}
-		out = append(out, &c10Event{Src: s, Script: sc, Tree: tree, HasRef: hasRef})
+		out = append(out, &c10Event{Src: s, Script: sc, Tree: tree, HasRef: hasRef, ReadKey: rkey})
 	}
 	return out
+}
+
+// c10Full: the event followed, in the same script and with no call in between, by a plain-expression
+// read of the key the event is about; the value is probed afterwards (I7).
+func c10Full(src string) (string, string) {
+	i, j := strings.Index(src, "("), strings.IndexAny(src, ",)")
+	key := strings.TrimSpace(src[i+1 : j])
+	if key == "_" {
+		key = "message"
+	}
+	return src + "\nrbv = " + key + "\np(rbv)\n", key
 }
 
 var refStd = func() *ref.World { w := ref.NewWorld(); ref.StdBuiltins(w); return w }()
@@ -284,6 +297,7 @@ type c10Node struct {
 	rp    *ref.Point // nil = reference no longer tracks this state
 	depth int
 	path  []string
+	inScript string // I7 violation found while stepping into this state
 }
 
 func c10Step(n *c10Node, ev *c10Event) (*c10Node, string) {
@@ -293,6 +307,16 @@ func c10Step(n *c10Node, ev *c10Event) (*c10Node, string) {
 		return nil, res.Panic
 	}
 	nn := &c10Node{pt: c, depth: n.depth + 1, path: append(append([]string{}, n.path...), ev.Src)}
+	// I7: what the script itself read right after the event is what the point holds now
+	if res.Err == nil && len(res.Trace) > 0 {
+		want := "p(nil)"
+		if got, dt, err := c.Get(ev.ReadKey); err == nil {
+			want = "p(" + drv.CanonDT(got, dt) + ")"
+		}
+		if last := res.Trace[len(res.Trace)-1]; last != want {
+			nn.inScript = fmt.Sprintf("key %q read inside the script right after %s gives %s, the point then holds %s", ev.ReadKey, ev.Src, last, want)
+		}
+	}
 	if n.rp != nil && ev.HasRef {
 		w := ref.NewWorld()
 		ref.StdBuiltins(w)
@@ -328,6 +352,11 @@ func c10Run(w *run.Worker) {
 		sound = true
 		cs := canonState(n.pt)
 		w.Outcome(cs)
+		if n.inScript != "" {
+			sound = false
+			last := n.path[len(n.path)-1]
+			w.Violate("C10:I7-read-inside-the-script-differs-from-the-point:after-"+last[:strings.Index(last, "(")], fmt.Sprintf("%s\nhistory: %v\nstate: %s", n.inScript, n.path, cs), c10Case{Init: initIdx, Events: n.path})
+		}
 		if class, msg, key := c10Invariants(n.pt, probes); class != "" {
 			sound = false
 			last := "initial"
@@ -415,7 +444,9 @@ func c10Replay(raw json.RawMessage) (bool, string) {
 	pt := inits[c.Init].real().Build()
 	rp := inits[c.Init].model()
 	tracked := true
-	for _, src := range c.Events {
+	inScript := ""
+	for _, src0 := range c.Events {
+		src, rkey := c10Full(src0)
 		sc, err := drv.Load1("e.p", src)
 		if err != nil {
 			return false, err.Error()
@@ -423,6 +454,15 @@ func c10Replay(raw json.RawMessage) (bool, string) {
 		res := drv.Run(sc, pt, nil)
 		if res.Panic != "" {
 			return true, res.Panic
+		}
+		if res.Err == nil && len(res.Trace) > 0 {
+			want := "p(nil)"
+			if got, dt, err := pt.Get(rkey); err == nil {
+				want = "p(" + drv.CanonDT(got, dt) + ")"
+			}
+			if last := res.Trace[len(res.Trace)-1]; last != want {
+				inScript = fmt.Sprintf("after %s the script read %s, the point holds %s", src0, last, want)
+			}
 		}
 		tree, _ := parseToTree("e.p", src)
 		w := ref.NewWorld()
@@ -441,6 +481,9 @@ func c10Replay(raw json.RawMessage) (bool, string) {
 		}
 	}
 	class, msg, _ := c10Invariants(pt, c10LoadProbes())
+	if class == "" && inScript != "" {
+		class, msg = "I7", inScript
+	}
 	out := fmt.Sprintf("state: %s\ninvariant: %s %s", canonState(pt), class, msg)
 	if tracked {
 		out += "\nreference: " + rp.Canon()
@@ -458,8 +501,8 @@ func init() {
 		ID:    "C10",
 		Level: "model_checking",
 		Rule: "explicit-state search: states = real input.Point values (measurement, time, tags, fields with Go types AND the key index), initial states = 4 points over {a field, t1 tag, message, small-int/float32 fields} covering every supported field type; " +
-			"transitions = 128 one-line scripts run by the real engine on a deep clone (add_key x 5 keys x 7 value kinds, add_key(k), set_tag(k[, literal | attribute expression | other key]), add_key(k, attribute expression), drop_key, rename over all ordered key pairs, cast x 4 types, set_measurement(k,true), default_time, uppercase, grok writing typed captures); " +
-			"breadth-first to depth 3 (thorough 4) with de-duplication on the canonical state; in every state: I1 every output key reads back (Point.Get and a script read) with exactly the stored value and type, I2 no key is tag and field, I3 field types, I4 no read returns a value the output lacks, I5 every output key can be dropped and renamed (one-step look-ahead), I6 no two keys share one (pooled) index entry object; plus agreement with the reference point model",
+			"transitions = 139 scripts (one builtin call each, incl. the `_` spelling) run by the real engine on a deep clone (add_key x 5 keys x 7 value kinds, add_key(k), set_tag(k[, literal | attribute expression | other key]), add_key(k, attribute expression), drop_key, rename over all ordered key pairs, cast x 4 types, set_measurement(k,true), default_time, uppercase, grok writing typed captures); " +
+			"breadth-first to depth 3 (thorough 4) with de-duplication on the canonical state; in every state: I1 every output key reads back (Point.Get and a script read) with exactly the stored value and type, I2 no key is tag and field, I3 field types, I4 no read returns a value the output lacks, I5 every output key can be dropped and renamed (one-step look-ahead), I6 no two keys share one (pooled) index entry object, I7 a plain-expression read of the event's key inside the event script, directly after the builtin, gives what the point then holds; plus agreement with the reference point model",
 		Assumptions: []string{"level 1 is sharded across workers, de-duplication is per worker (states reached in several subtrees are checked more than once)", "reference tracking stops after an unspecified cell (rename onto an existing key)"},
 		Run:            c10Run,
 		Replay:         c10Replay,
